@@ -201,7 +201,7 @@ pub fn gen_name(rng: &mut Rng, uniq: usize) -> String {
     parts.join("\\")
 }
 
-pub const FILE_CLASSES: &[&str] = &["random", "zero", "period3", "sparse", "text", "half", "ff", "runs"];
+pub const FILE_CLASSES: &[&str] = &["random", "zero", "period3", "sparse", "text", "half", "ff", "runs", "litruns"];
 
 /// 6–10 files covering the boundary sizes relative to the sector size and the content classes.
 pub fn gen_fileset(rng: &mut Rng, sector: usize, max_total: usize) -> Vec<FileSpec> {
